@@ -562,6 +562,23 @@ func TestVerif_C10(t *testing.T) {
 	// (g) the configuration dimension (key deny lists), (h) the structure of a submitted PEM text
 	cfgCases, cfgIdx := c10ConfigStage(env, res, corpus, request)
 	pemCases, pemIdx := c10PemStage(env, res, corpus, request)
+	// (i) the pubkey form parameter of the role paths: encodings, repeated values
+	paramCases, paramIdx := c10ParamStage(env, res, corpus, func(path string, pubkeys []string) *http.Request {
+		if path == "role" {
+			f := roleCertForm("svc-automation", []string{"10.0.0.0/8"}, "")
+			for _, v := range pubkeys {
+				f.Add("pubkey", v)
+			}
+			r := verifNewRequest("POST", getRoleRequestingPath, f)
+			r.AddCookie(adminCookie)
+			return r
+		}
+		f := roleCertForm("", nil, "")
+		for _, v := range pubkeys {
+			f.Add("pubkey", v)
+		}
+		return withTLS(verifNewRequest("POST", refreshRoleRequestingCertPath, f), ipChain, "10.9.9.9:1234")
+	})
 	// (f) the SSH key file as the validator and as the signer read it
 	fileCases, fileIdx := c10FileStage(t, env, res, corpus, userCookie)
 	// (e) signed tokens of every kind, claim-dropped / type-confused / corrupted, at every token sink
@@ -590,7 +607,11 @@ func TestVerif_C10(t *testing.T) {
 	sb.WriteString("Definition pem_cases : list pem_case := [\n " + strings.Join(pemCases, ";\n ") + "].\n")
 	sb.WriteString("Definition c10_pem_mismatches := Eval vm_compute in mismatches c10_pem_bad pem_cases.\nPrint c10_pem_mismatches.\n")
 	sb.WriteString("Definition c10_pem_violating := Eval vm_compute in mismatches (fun c => c10_pem_bad c && c10_pem_violates c) pem_cases.\nPrint c10_pem_violating.\n")
-	sb.WriteString("Definition c10_ncases := Eval vm_compute in (length pred_cases + length pipe_cases + length file_cases + length claim_cases + length cfg_cases + length pem_cases)%nat.\nPrint c10_ncases.\n")
+	sb.WriteString("(* pubkey form parameter of the role paths: (path, values, class) *)\n")
+	sb.WriteString("Definition param_cases : list param_case := [\n " + strings.Join(paramCases, ";\n ") + "].\n")
+	sb.WriteString("Definition c10_param_mismatches := Eval vm_compute in mismatches c10_param_bad param_cases.\nPrint c10_param_mismatches.\n")
+	sb.WriteString("Definition c10_param_violating := Eval vm_compute in mismatches (fun c => c10_param_bad c && c10_param_violates c) param_cases.\nPrint c10_param_violating.\n")
+	sb.WriteString("Definition c10_ncases := Eval vm_compute in (length pred_cases + length pipe_cases + length file_cases + length claim_cases + length cfg_cases + length pem_cases + length param_cases)%nat.\nPrint c10_ncases.\n")
 	if err := ioutil.WriteFile(filepath.Join(verifOut(), "CasesC10.v"), []byte(sb.String()), 0644); err != nil {
 		t.Fatal(err)
 	}
@@ -599,6 +620,7 @@ func TestVerif_C10(t *testing.T) {
 	ioutil.WriteFile(filepath.Join(verifOut(), "CasesC10J.idx"), []byte(strings.Join(claimIdx, "\n")), 0644)
 	ioutil.WriteFile(filepath.Join(verifOut(), "CasesC10G.idx"), []byte(strings.Join(cfgIdx, "\n")), 0644)
 	ioutil.WriteFile(filepath.Join(verifOut(), "CasesC10P.idx"), []byte(strings.Join(pemIdx, "\n")), 0644)
+	ioutil.WriteFile(filepath.Join(verifOut(), "CasesC10R.idx"), []byte(strings.Join(paramIdx, "\n")), 0644)
 	res.sample(map[string]interface{}{"path": "role", "key": "rsa-2047-e65537", "expected": "client error"})
 	res.sample(pipeIdx[0])
 	res.sample(pipeIdx[len(pipeIdx)/2])
